@@ -171,9 +171,31 @@ func Matches(s, alphabet string) bool {
 
 func Note(key, val string) { mu.Lock(); notes[key] = val; mu.Unlock() }
 func AllowPanic()          {}
+func AssumeCleanPaths()    {}
 func MapOrder(on bool)     {}
 func Yield()               {}
 func IsConcrete(s string) bool { return true }
+
+// RunToCrash runs f; under the engine f may be cut short at any file-system operation
+// (simulated process death). Natively f simply runs to completion.
+func RunToCrash(f func()) bool { f(); return false }
+
+// Faults allows up to n injected faults on model-FS operations whose path starts with
+// prefix and whose kind is in the comma separated list ops ("" = any). Native: no-op.
+func Faults(n int, prefix, ops string) {}
+func FaultsInjected() int              { return 0 }
+func FSVisible(on bool)                {}
+func SetPid(n int)                     {}
+
+// TempDir returns a fresh directory: "/"+name in the model file system, a real temporary
+// directory natively.
+func TempDir(name string) string {
+	d, err := os.MkdirTemp("", "verif-"+name+"-")
+	if err != nil {
+		panic(err)
+	}
+	return d
+}
 
 // Run executes a harness natively and returns the ids of failed assertions.
 // ok=false means an assumption did not hold for the model (replay not applicable).
